@@ -131,7 +131,7 @@ Apply(s, e) ==
             [] e.op = "push" ->
                  [s EXCEPT !.subs = IF T.kind = "rbf" /\ Len(@) >= T.qmax THEN Append(Tail(@), NewSub) ELSE Append(@, NewSub),
                            !.manual = TRUE, !.man = DOMAIN s.ins]
-            [] e.op = "pop" -> [s EXCEPT !.subs = Tail(@), !.manual = TRUE, !.man = DOMAIN s.ins]
+            [] e.op = "pop" -> [s EXCEPT !.subs = IF Len(@) > 1 THEN Tail(@) ELSE @, !.manual = TRUE, !.man = DOMAIN s.ins]     \* total (see TraceLayout)
             [] OTHER -> s)
     [] T.kind \in {"cko", "ccko"} ->
          (CASE e.op = "add" ->       \* a batch of successful adds is order-independent for the oracle
